@@ -450,7 +450,8 @@ NAMESPACE = types.SimpleNamespace(
 )
 
 
-def explore(run, bound: int, max_schedules: int = 2000, extra_reversed: bool = True):
+def explore(run, bound: int, max_schedules: int = 2000, extra_reversed: bool = True,
+            selfcheck: bool = False):
     """Stateless DFS over schedules with at most `bound` deviations from FIFO.
 
     run(schedule) -> observation (hashable).  Returns dict(schedules, outcomes{obs: first
@@ -471,6 +472,16 @@ def explore(run, bound: int, max_schedules: int = 2000, extra_reversed: bool = T
         set_schedule(s)
         obs = run(s)
         n += 1
+        if selfcheck and n == 1:
+            # determinism self-check: the same schedule replayed on a fresh run must take the same
+            # choice points and give the identical observation before any difference is believed
+            s2 = Schedule(list(s.choices))
+            set_schedule(s2)
+            obs2 = run(s2)
+            n += 1
+            if obs2 != obs or s2.points != s.points:
+                raise ReplayDivergence("the same schedule replayed twice gave different observations "
+                                       f"or choice points ({s.points} vs {s2.points})")
         outcomes.setdefault(obs, list(s.choices))
         points_max = max(points_max, len(s.points))
         if invocations is None:
